@@ -22,7 +22,7 @@ EXPLANATION = (
     "its destination cursor of the element read through its source cursor (or the fill value), both cursors step by exactly one element in the routine's direction, forward loops store-then-advance and backward loops retreat-then-store, "
     "and the loop runs exactly while the cursor is inside [dest, dest + n) - hence no byte outside the destination range is written and, with the memmove dispatch rule of C08.3, overlapping copies read every source byte before it is overwritten; "
     "compare_bytes returns 0 only when the index reached n, otherwise (byte at s1+i) - (byte at s2+i), and the index starts at 0 and moves only past positions whose bytes compared equal. "
-    "C08.7 also: compare_bytes reads a byte only at an index the loop test has shown to be below n (a bottom-tested loop reads index 0 when n == 0). NOT decided: the arithmetic facts the argument leans on ((-dest) & 7 < n under n >= 16, (n - head) & !7 <= n - head) are taken from the constants check in C08.3 rather than re-derived; behaviour of the generated machine code.")
+    "C08.7 also: compare_bytes reads a byte only at an index the loop test has shown to be below n (a bottom-tested loop reads index 0 when n == 0). C08.7 also: a byte difference is answered only at the scan position (all earlier positions compared equal). NOT decided: the arithmetic facts the argument leans on ((-dest) & 7 < n under n >= 16, (n - head) & !7 <= n - head) are taken from the constants check in C08.3 rather than re-derived; behaviour of the generated machine code.")
 ASSUMPTIONS = ["#![no_builtins] keeps LLVM from recognising the loops as mem* idioms", "pointer read/write of a word-sized scalar lowers to a load/store, not to memcpy"]
 
 M = "tiny_start::symbols::mem::"
